@@ -33,6 +33,152 @@ type Case struct {
 	Allow  bool          `json:"allow"`
 	// Reuse: the loader has already loaded another root document (first.json, next to the root)
 	Reuse bool `json:"reuse,omitempty"`
+	// Hosts (entry "multi-host"): two documents with the same path at locations that differ in one URL
+	// component; each one's relative references belong to its own location
+	Hosts *Hosts `json:"hosts,omitempty"`
+}
+
+type Hosts struct {
+	Diff     string `json:"diff"`      // host | scheme | query | port | userinfo-free path case: what tells the two locations apart
+	RelFirst bool   `json:"rel_first"` // the root's relative reference sorts before its cross-location one
+	ByData   bool   `json:"by_data"`   // LoadFromDataWithPath instead of LoadFromURI
+	KindIdx  int    `json:"kind"`      // 0 schemas | 1 parameters | 2 responses
+}
+
+func (hc *Hosts) locations() (root, other string) {
+	root = "http://a.example/api/root.json"
+	switch hc.Diff {
+	case "scheme":
+		other = "https://a.example/api/root.json"
+	case "query":
+		root, other = "http://a.example/api/root.json?v=1", "http://a.example/api/root.json?v=2"
+	case "port":
+		other = "http://a.example:8080/api/root.json"
+	default:
+		other = "http://b.example/api/root.json"
+	}
+	return
+}
+
+func sibling(loc, name string) string {
+	u, _ := url.Parse(loc)
+	r, _ := u.Parse(name)
+	return r.String()
+}
+
+// checkHosts: external references allowed; the reads must be exactly the four designated locations.
+func checkHosts(c Case) (o h.Outcome) {
+	hc := c.Hosts
+	rootLoc, otherLoc := hc.locations()
+	sect := []string{"schemas", "parameters", "responses"}[hc.KindIdx%3]
+	obj := func(vid string, inner M) M {
+		var m M
+		switch sect {
+		case "schemas":
+			m = M{"type": "object", "x-vid": vid}
+			if inner != nil {
+				m["properties"] = M{"k": inner}
+			}
+		case "parameters":
+			m = M{"name": "q" + vid, "in": "query", "x-vid": vid, "schema": M{"type": "string"}}
+			if inner != nil {
+				m["schema"] = inner
+			}
+		default:
+			m = M{"description": "d", "x-vid": vid}
+			if inner != nil {
+				m["content"] = M{"application/json": M{"schema": inner}}
+			}
+		}
+		return m
+	}
+	relName, crossName := "Omega", "Alpha"
+	if hc.RelFirst {
+		relName, crossName = "Alpha", "Omega"
+	}
+	doc := func(title string, comps M) []byte {
+		b, _ := json.Marshal(M{"openapi": "3.0.3", "info": M{"title": title, "version": "1"}, "paths": M{}, "components": comps})
+		return b
+	}
+	rootDoc := doc("root", M{sect: M{
+		crossName: M{"$ref": otherLoc + "#/components/" + sect + "/Zeta"},
+		relName:   M{"$ref": "common.json#/components/" + sect + "/C"},
+	}})
+	otherDoc := doc("other", M{sect: M{"Zeta": obj("zeta", M{"$ref": "zcommon.json#/components/schemas/Z"})}, "schemas": M{"Unused": M{"type": "string"}}})
+	if sect == "schemas" {
+		otherDoc = doc("other", M{"schemas": M{"Zeta": obj("zeta", M{"$ref": "zcommon.json#/components/schemas/Z"})}})
+	}
+	commonDoc := doc("common", M{sect: M{"C": obj("c-of-root", nil)}})
+	zcommonDoc := doc("zcommon", M{"schemas": M{"Z": M{"type": "string", "x-vid": "z-of-other"}}})
+	want := map[string]bool{rootLoc: true, otherLoc: true, sibling(rootLoc, "common.json"): true, sibling(otherLoc, "zcommon.json"): true}
+	fs := &memfs.FS{Files: map[string][]byte{rootLoc: rootDoc, otherLoc: otherDoc, sibling(rootLoc, "common.json"): commonDoc, sibling(otherLoc, "zcommon.json"): zcommonDoc}}
+	if hc.Diff == "query" {
+		// the loader keeps a document's query when it resolves a relative reference against it (RFC 3986
+		// would drop it): either way the location is derived from the referring document's own
+		for loc, name := range map[string]string{rootLoc: "common.json", otherLoc: "zcommon.json"} {
+			u, _ := url.Parse(loc)
+			k := sibling(loc, name) + "?" + u.RawQuery
+			want[k] = true
+			fs.Files[k] = fs.Files[sibling(loc, name)]
+		}
+	}
+	ld := openapi3.NewLoader()
+	ld.IsExternalRefsAllowed = true
+	ld.ReadFromURIFunc = fs.Read
+	ru, _ := url.Parse(rootLoc)
+	var d *openapi3.T
+	var err error
+	if !o.Guarded("Load/multi-host", func() {
+		if hc.ByData {
+			d, err = ld.LoadFromDataWithPath(rootDoc, ru)
+		} else {
+			d, err = ld.LoadFromURI(ru)
+		}
+	}) {
+		return
+	}
+	o.Class("on:multi-host:%s:%s", hc.Diff, sect)
+	o.NonTrivial = true
+	for _, u := range fs.Log {
+		pu, perr := url.Parse(u)
+		key := u
+		if perr == nil {
+			key = memfs.Key(pu)
+		}
+		if !want[key] {
+			o.Fail("read-outside-closure:multi-host", "with two documents of the same path at %q and %q, the loader read %q, which no reference of a document at its own location designates; log=%v err=%v", rootLoc, otherLoc, u, fs.Log, err)
+			return
+		}
+	}
+	if err != nil {
+		o.Fail("valid-layout-rejected:multi-host", "documents of the same path at %q and %q: loading fails: %v (log=%v)", rootLoc, otherLoc, err, fs.Log)
+		return
+	}
+	// the relative references were resolved against their own documents
+	vid := func(ext map[string]any) string { s, _ := ext["x-vid"].(string); return s }
+	var gotRel, gotCross, gotInner string
+	func() {
+		defer func() { _ = recover() }() // a nil on the way: the markers stay empty
+		switch sect {
+		case "schemas":
+			gotRel = vid(d.Components.Schemas[relName].Value.Extensions)
+			gotCross = vid(d.Components.Schemas[crossName].Value.Extensions)
+			gotInner = vid(d.Components.Schemas[crossName].Value.Properties["k"].Value.Extensions)
+		case "parameters":
+			gotRel = vid(d.Components.Parameters[relName].Value.Extensions)
+			gotCross = vid(d.Components.Parameters[crossName].Value.Extensions)
+			gotInner = vid(d.Components.Parameters[crossName].Value.Schema.Value.Extensions)
+		default:
+			gotRel = vid(d.Components.Responses[relName].Value.Extensions)
+			gotCross = vid(d.Components.Responses[crossName].Value.Extensions)
+			gotInner = vid(d.Components.Responses[crossName].Value.Content["application/json"].Schema.Value.Extensions)
+		}
+	}()
+	if gotRel != "c-of-root" || gotCross != "zeta" || gotInner != "z-of-other" {
+		o.Fail("wrong-target:multi-host", "resolved markers: relative reference %q (want c-of-root), cross-location reference %q (want zeta), its inner relative reference %q (want z-of-other): a reference was resolved against another document's location (log=%v)", gotRel, gotCross, gotInner, fs.Log)
+		return
+	}
+	return
 }
 
 func TestMain(m *testing.M) { h.Main(m, "C11") }
@@ -77,6 +223,9 @@ func hostileForms(kind, root string) []string {
 }
 
 func check(c Case) (o h.Outcome) {
+	if c.Entry == "multi-host" && c.Hosts != nil {
+		return checkHosts(c)
+	}
 	fs := &memfs.FS{Files: map[string][]byte{}, Decoy: []byte(decoy)}
 	var rootBytes []byte
 	if c.Layout != nil {
@@ -280,6 +429,14 @@ var roots = []string{"/w/api/root.json", "api/root.json", "root.json", "api/ro#o
 func enumerate(shard, nshards int, yield func(Case)) {
 	raw := jv.Parse(docgen.BaseDoc).(M)
 	idx := 0
+	for _, diff := range []string{"host", "scheme", "query", "port"} {
+		for k := 0; k < 12; k++ {
+			idx++
+			if idx%nshards == shard {
+				yield(Case{Entry: "multi-host", Allow: true, Hosts: &Hosts{Diff: diff, RelFirst: k&1 != 0, ByData: k&2 != 0, KindIdx: k / 4}})
+			}
+		}
+	}
 	for _, n := range positions(raw) {
 		kind := strings.TrimPrefix(n.Kind, "Ref:")
 		for _, root := range roots {
@@ -303,6 +460,10 @@ func enumerate(shard, nshards int, yield func(Case)) {
 }
 
 func gen(t *rapid.T) Case {
+	if rapid.IntRange(0, 9).Draw(t, "multihost") == 0 {
+		return Case{Entry: "multi-host", Allow: true, Hosts: &Hosts{Diff: rapid.SampledFrom([]string{"host", "scheme", "query", "port"}).Draw(t, "diff"),
+			RelFirst: rapid.Bool().Draw(t, "relfirst"), ByData: rapid.Bool().Draw(t, "bydata"), KindIdx: rapid.IntRange(0, 2).Draw(t, "kind")}}
+	}
 	if rapid.Bool().Draw(t, "allow") {
 		lay := fsgen.Generate(t, fsgen.Cfg{Absolute: rapid.Bool().Draw(t, "abs"), NoExtension: rapid.IntRange(0, 2).Draw(t, "noext") == 0, NullEntries: rapid.IntRange(0, 3).Draw(t, "nullentries") == 0})
 		return Case{Layout: lay, Root: lay.Root, Entry: rapid.SampledFrom([]string{"datawithpath", "uri", "file"}).Draw(t, "entry"), Allow: true}
